@@ -59,6 +59,13 @@ structure Variant where
   CELLS (rule.py:98), so any multi-cell `characters` pushes the title out of the rule; `false` = the
   proposed repair (fill exactly `width - title - 1` cells). -/
   ruleRightRepeat : Bool := true
+  /-- `Text.rstrip_end` compares the number of CHARACTERS with the cell width (text.py:487), so a text with
+  zero-width characters that exactly fills its width loses trailing blanks; `false` = the proposed
+  repair (`cell_len(self.plain)`). -/
+  rstripCountsChars : Bool := true
+  /-- `Columns(width=…)` computes `max_width // (width + padding)` columns, possibly 0, and then raises
+  `ZeroDivisionError` (F11); `false` = the proposed repair `max(1, …)`. -/
+  columnsZeroCount : Bool := true
 deriving Repr
 
 /-- A child renderable as an oracle.
@@ -217,10 +224,12 @@ def simpleChar (c : Char) : Bool :=
 /-- number of trailing U+0020 (`_re_whitespace = r"\s+$"` on a `simpleChar` string). -/
 def trailingSpaces (s : List Char) : Nat := (s.reverse.takeWhile (· == ' ')).length
 
-/-- `Text.rstrip_end(size)` (text.py:481-493): compares the *character* count with `size`. -/
-def rstripEnd (plain : List Char) (size : Int) : List Char :=
-  if (plain.length : Int) > size then
-    let excess : Int := plain.length - size
+/-- `Text.rstrip_end(size)` (text.py:481-493): today compares the *character* count with `size`
+(`v.rstripCountsChars`); the repaired code compares the cell length. -/
+def rstripEnd (cw : Char → Nat) (v : Variant) (plain : List Char) (size : Int) : List Char :=
+  let textLength : Int := if v.rstripCountsChars then (plain.length : Int) else (cellLen cw plain : Int)
+  if textLength > size then
+    let excess : Int := textLength - size
     let ws := trailingSpaces plain
     if ws != 0 then plain.take (plain.length - (min (ws : Int) excess).toNat) else plain
   else plain
@@ -229,9 +238,9 @@ def rstripEnd (plain : List Char) (size : Int) : List Char :=
 all characters `simpleChar`, `cell_len(plain) ≤ options.max_width`, default justify/overflow
 (text.py:504-524, wrap 980-1028: `divide_line` finds no break, `rstrip_end`, `truncate` is a no-op).
 `none` = outside this domain (unmodelled). -/
-def textConsoleSimple (cw : Char → Nat) (plain endS : List Char) (w : Int) : Option (List (Segment σ)) :=
+def textConsoleSimple (cw : Char → Nat) (v : Variant) (plain endS : List Char) (w : Int) : Option (List (Segment σ)) :=
   if plain.all simpleChar && (cellLen cw plain : Int) ≤ w then
-    let p := rstripEnd plain w
+    let p := rstripEnd cw v plain w
     some ((if p.isEmpty then [] else [seg p]) ++ (if endS.isEmpty then [] else [seg endS]))
   else none
 
@@ -327,7 +336,7 @@ def panelConsole (cw : Char → Nat) (env : Env) (v : Variant) (o : PanelOpts) (
         | some t =>
           let aligned := textAlign cw t o.titleAlign (width - 4) box.top
           -- `console.render(title_text)` is called WITHOUT options: the title is rendered at `console.width`
-          match textConsoleSimple cw aligned [] (env.consoleWidth : Int) with
+          match textConsoleSimple cw v aligned [] (env.consoleWidth : Int) with
           | none => none
           | some ts => some ([seg [box.topLeft, box.top]] ++ ts ++ [seg [box.top, box.topRight]])
       match top with
@@ -461,7 +470,7 @@ def ruleText (cw : Char → Nat) (env : Env) (v : Variant) (o : RuleOpts) (w : I
 /-- `Rule.__rich_console__` followed by the rendering of the yielded `Text`. -/
 def ruleConsole (cw : Char → Nat) (env : Env) (v : Variant) (o : RuleOpts) (w : Int) : Option (List (Segment σ)) :=
   let (plain, e) := ruleText cw env v o w
-  textConsoleSimple cw plain e w
+  textConsoleSimple cw v plain e w
 
 /-! ## Bar (bar.py) and ProgressBar (progress_bar.py)
 
